@@ -89,4 +89,24 @@ theorem skel_splitPathAndQuery_ok : skel_splitPathAndQuery = ([
 theorem skel_setProxyDirector_ok : skel_setProxyDirector = ([
   "func{"] : List String) := rfl
 
+theorem flags_upstream_ok : flags_upstream = ([
+  "Duration flush-interval = DefaultUpstreamFlushInterval",
+  "Bool pass-host-header = true",
+  "Bool proxy-websockets = true",
+  "Bool ssl-upstream-insecure-skip-verify = false",
+  "StringSlice upstream = []string{}",
+  "Duration upstream-timeout = DefaultUpstreamTimeout"] : List String) := rfl
+
+theorem optionTags_upstream_ok : optionTags_upstream = ([
+  "flush-interval flush_interval LegacyUpstreams.FlushInterval time.Duration",
+  "pass-host-header pass_host_header LegacyUpstreams.PassHostHeader bool",
+  "proxy-websockets proxy_websockets LegacyUpstreams.ProxyWebSockets bool",
+  "ssl-upstream-insecure-skip-verify ssl_upstream_insecure_skip_verify LegacyUpstreams.SSLUpstreamInsecureSkipVerify bool",
+  "upstream upstreams LegacyUpstreams.Upstreams []string",
+  "upstream-timeout upstream_timeout LegacyUpstreams.Timeout time.Duration"] : List String) := rfl
+
+theorem cfgText_legacyUpstreams_ok : cfgText_legacyUpstreams = ([
+  "func LegacyUpstreams.convert {",
+  "{ upstreams := UpstreamConfig{} for _, upstreamString := range l.Upstreams { u, err := url.Parse(upstreamString) if err != nil { return UpstreamConfig{}, fmt.Errorf(\"could not parse upstream %q: %v\", upstreamString, err) } if u.Path == \"\" { u.Path = \"/\" } flushInterval := Duration(l.FlushInterval) timeout := Duration(l.Timeout) upstream := Upstream{ ID: u.Path, Path: u.Path, URI: upstreamString, InsecureSkipTLSVerify: l.SSLUpstreamInsecureSkipVerify, PassHostHeader: &l.PassHostHeader, ProxyWebSockets: &l.ProxyWebSockets, FlushInterval: &flushInterval, Timeout: &timeout, } switch u.Scheme { case \"file\": if u.Fragment != \"\" { upstream.ID = u.Fragment upstream.Path = u.Fragment upstream.URI = strings.SplitN(upstreamString, \"#\", 2)[0] } case \"static\": responseCode, err := strconv.Atoi(u.Host) if err != nil { logger.Errorf(\"unable to convert %q to int, use default \\\"200\\\"\", u.Host) responseCode = 200 } upstream.Static = true upstream.StaticCode = &responseCode upstream.ID = upstreamString upstream.Path = \"/\" upstream.URI = \"\" upstream.InsecureSkipTLSVerify = false upstream.PassHostHeader = nil upstream.ProxyWebSockets = nil upstream.FlushInterval = nil upstream.Timeout = nil case \"unix\": upstream.Path = \"/\" } upstreams.Upstreams = append(upstreams.Upstreams, upstream) } return upstreams, nil }"] : List String) := rfl
+
 end O2P.Expect.C17
